@@ -38,6 +38,18 @@ type Case struct {
 	// per path: 0 leave HighResolutionCoordinates as it is (after Reset: false), 1 set it, 2 clear it
 	BHi  []int  `json:"b_hires"`
 	Rect [4]int `json:"rect"`
+	// ARect: the rectangle the Renderer was aimed at during A (nil: the same as Rect; may be empty).
+	ARect *[4]int `json:"a_rect,omitempty"`
+	// NoRearm: the caller arms the rasteriser's one-shot DrawOp (Src) for A only; B is drawn with
+	// whatever a consumed one-shot leaves behind (Over), as on a fresh rasteriser.
+	NoRearm bool `json:"no_rearm,omitempty"`
+}
+
+func (c Case) aRect(rect image.Rectangle) image.Rectangle {
+	if c.ARect == nil {
+		return rect
+	}
+	return image.Rect(c.ARect[0], c.ARect[1], c.ARect[0]+c.ARect[2], c.ARect[1]+c.ARect[3])
 }
 
 func (c Case) bvb() ivg.ViewBox {
@@ -156,9 +168,12 @@ func checkReuse(c Case) error {
 
 	rrUsed := &rast.Recorder{}
 	var zu render.Renderer
-	zu.SetRasterizer(rrUsed, rect)
+	zu.SetRasterizer(rrUsed, c.aRect(rect))
 	zu.Reset(ivg.DefaultViewBox, ivg.DefaultPalette)
 	ops.ApplyAll(&zu, c.AOps)
+	if c.ARect != nil {
+		zu.SetRasterizer(rrUsed, rect)
+	}
 	mark := len(rrUsed.Calls)
 	renderB(&zu, c)
 	if d := rast.DiffCalls(rrUsed.Calls[mark:], rrFresh.Calls); d != "" {
@@ -177,8 +192,17 @@ func checkReuse(c Case) error {
 	}
 	rrD := &rast.Recorder{}
 	var zd render.Renderer
-	zd.SetRasterizer(rrD, rect)
+	zd.SetRasterizer(rrD, c.aRect(rect))
 	decode.Decode(&zd, aBytes) // may fail half-way: that is the point
+	drawsInA := 0
+	for _, k := range rrD.Calls {
+		if k.K == rast.Draw {
+			drawsInA++
+		}
+	}
+	if c.ARect != nil {
+		zd.SetRasterizer(rrD, rect)
+	}
 	mark = len(rrD.Calls)
 	if err := decode.Decode(&zd, want); err != nil {
 		return harness.Violatef("c17/harness", "decode of B failed: %v", err)
@@ -198,7 +222,7 @@ func checkReuse(c Case) error {
 		pixelSkippedHuge++
 		return nil
 	}
-	return pixelPart(c, rect, aBytes, want)
+	return pixelPart(c, rect, aBytes, want, drawsInA)
 }
 
 var pixelSkippedHuge int64
@@ -223,7 +247,7 @@ var vectorPanics int64
 // produce from moderate operands); that is outside ivg, the same decodes ran
 // above against the recording rasteriser without panicking, so such cases
 // are skipped and counted.
-func pixelPart(c Case, rect image.Rectangle, aBytes, want []byte) (err error) {
+func pixelPart(c Case, rect image.Rectangle, aBytes, want []byte, drawsInA int) (err error) {
 	defer func() {
 		if r := recover(); r != nil {
 			vectorPanics++
@@ -237,11 +261,19 @@ func pixelPart(c Case, rect image.Rectangle, aBytes, want []byte) (err error) {
 		draw.Draw(imgU, bounds, bg, image.Point{}, draw.Src)
 		vu := vec.NewRasterizer(imgU)
 		var zpu render.Renderer
-		zpu.SetRasterizer(vu, rect)
+		zpu.SetRasterizer(vu, c.aRect(rect))
+		// without re-arming, what B is drawn with is what A's first Draw left behind: when A
+		// draws nothing the one-shot is still armed, which says nothing about reuse
+		noRearm := c.NoRearm && drawsInA > 0
 		vu.DrawOp = draw.Src
 		decode.Decode(&zpu, aBytes)
 		draw.Draw(imgU, bounds, bg, image.Point{}, draw.Src)
-		vu.DrawOp = draw.Src // re-arm the documented one-shot field, as a caller must
+		if c.ARect != nil {
+			zpu.SetRasterizer(vu, rect)
+		}
+		if !noRearm {
+			vu.DrawOp = draw.Src // re-arm the documented one-shot field, as a caller must
+		}
 		decode.Decode(&zpu, want)
 
 		imgF := image.NewRGBA(bounds)
@@ -249,7 +281,9 @@ func pixelPart(c Case, rect image.Rectangle, aBytes, want []byte) (err error) {
 		vf := vec.NewRasterizer(imgF)
 		var zpf render.Renderer
 		zpf.SetRasterizer(vf, rect)
-		vf.DrawOp = draw.Src
+		if !noRearm {
+			vf.DrawOp = draw.Src
+		}
 		decode.Decode(&zpf, want)
 		if !bytes.Equal(imgU.Pix, imgF.Pix) {
 			return harness.Violatef("c17/pixels-differ", "Renderer and rasteriser reused for a second Decode give different pixels for B")
@@ -258,7 +292,7 @@ func pixelPart(c Case, rect image.Rectangle, aBytes, want []byte) (err error) {
 	return nil
 }
 
-var subReuse = harness.Define("reuse", "pairs (earlier history A, later well-formed program B): A = well-formed, protocol-breaking, or cut mid-path/mid-run histories with high-resolution on and registers, selectors, LOD and smooth-curve state dirtied (also raw mutated streams that fail half-way); B relies on defaults (unwritten CREG/NREG, no selector writes, default LOD, smooth first op). Encoder after A+Reset == fresh (bytes), encoding twice and Bytes twice equal; Renderer (driven directly, reused through Decode) == fresh (rasteriser log incl. paints, and pixels with raster/vec); non-trivial = A leaves dirty state (open path, error, LOD, or all registers written)", checkReuse)
+var subReuse = harness.Define("reuse", "pairs (earlier history A, later well-formed program B): A = well-formed, protocol-breaking, or cut mid-path/mid-run histories with high-resolution on and registers, selectors, LOD and smooth-curve state dirtied (also raw mutated streams that fail half-way); B relies on defaults (unwritten CREG/NREG, no selector writes, default LOD, smooth first op). Encoder after A+Reset == fresh (bytes), encoding twice and Bytes twice equal; Renderer (driven directly, reused through Decode; A drawn into the same, another or an empty rectangle; one-shot draw operator re-armed or armed for A only) == fresh (rasteriser log incl. paints, and pixels with raster/vec); non-trivial = A leaves dirty state (open path, error, LOD, or all registers written)", checkReuse)
 
 func moderate(t *rapid.T, l string) float32 { return gen.Moderate(t, l, 40) }
 
@@ -397,6 +431,18 @@ func TestReuse(t *testing.T) {
 			labels = append(labels, "A-resets-to-a-shifted-viewbox")
 		}
 		c.Rect = [4]int{rapid.IntRange(0, 5).Draw(t, "rx"), rapid.IntRange(0, 5).Draw(t, "ry"), rapid.SampledFrom([]int{16, 48, 64, 96, 200}).Draw(t, "rw"), rapid.SampledFrom([]int{16, 48, 64, 96, 300}).Draw(t, "rh")}
+		switch rapid.IntRange(0, 5).Draw(t, "arect") {
+		case 0:
+			c.ARect = &[4]int{c.Rect[0], c.Rect[1], rapid.SampledFrom([]int{0, c.Rect[2]}).Draw(t, "aw"), 0}
+			labels = append(labels, "A-drawn-into-an-empty-rectangle")
+		case 1:
+			c.ARect = &[4]int{rapid.IntRange(0, 9).Draw(t, "arx"), rapid.IntRange(0, 9).Draw(t, "ary"), rapid.SampledFrom([]int{8, 16, 64, 80}).Draw(t, "arw"), rapid.SampledFrom([]int{8, 16, 64, 80}).Draw(t, "arh")}
+			labels = append(labels, "A-drawn-into-another-rectangle")
+		}
+		if rapid.IntRange(0, 2).Draw(t, "norearm") == 0 {
+			c.NoRearm = true
+			labels = append(labels, "draw-operator-armed-for-A-only")
+		}
 		subReuse.See(c, len(labels) > 0, harness.HashJSON(c), labels...)
 		subReuse.Run(t, c)
 	})
